@@ -306,6 +306,9 @@ func (r *Rng) c10Command(nfile *int) c10Line {
 	if needFile {
 		*nfile++
 		f := fmt.Sprintf("f%d.out", *nfile)
+		if r.Chance(60) {
+			f = r.Pick([]string{"fA.out", "fB.out", "outA.txt"}) // names are REUSED across commands (and shared with output=)
+		}
 		if r.Chance(40) {
 			toks = append(toks, ">", f)
 		} else {
@@ -450,6 +453,48 @@ func c10ToggleScript(r *Rng, types []string) ([]c10Line, string) {
 		}
 	}
 	return ls, tg.opt
+}
+
+// ---- file-reuse scripts: several reports written to the SAME file, long ones before short ones ----
+
+func c10FileReuseScript(r *Rng) []c10Line {
+	long := []string{"raw", "tree", "traces", "dot", "peek .", "top 40", "tags", "callgrind", "list .", "text -cum"}
+	short := []string{"top 1", "top 2 nomatch", "comments", "tags nomatch", "text 1", "peek nomatch", "tree 1 -cum", "traces nomatch"}
+	F := r.Pick([]string{"fA.out", "reuse.txt", "outA.txt"})
+	var ls []c10Line
+	asg := func(t string) { ls = append(ls, c10Line{Text: c10Pad(r, t), Intent: "assign"}) }
+	cmd := func(t string) { ls = append(ls, c10Line{Text: c10Pad(r, t), Intent: "command"}) }
+	viaOption := r.Chance(40)
+	redirect := func(c string) string {
+		if viaOption {
+			return c
+		}
+		if r.Bool() {
+			return c + " >" + F
+		}
+		return c + " > " + F
+	}
+	if r.Chance(30) {
+		asg(r.Pick([]string{"granularity=lines", "unit=ms", "nodecount=3", "focus=app|lib"}))
+	}
+	if viaOption {
+		asg("output=" + F)
+	}
+	for i, n := 0, 2+r.Intn(3); i < n; i++ {
+		cmd(redirect(r.Pick(long)))
+		cmd(redirect(r.Pick(short)))
+		if r.Chance(30) {
+			s := r.Pick(short)
+			cmd(redirect(s))
+			cmd(redirect(s)) // the same command twice in a row
+		}
+		if viaOption && r.Chance(30) {
+			asg("output=")
+			cmd(r.Pick(short))
+			asg("output=" + F)
+		}
+	}
+	return ls
 }
 
 // ---- web request generator ----
